@@ -101,8 +101,16 @@ def make_cases(seed, tier, ndefs=None, ntypes=None, nvals=None):
             continue
         seen.add(key)
         types.append(t)
+    # regression corpus: the inputs of every defect found so far (fixed or known), always first
+    corpus = corpus_cases()
+    types = [t for (t, _) in corpus] + types
     cases = []
+    for i, (t, vals) in enumerate(corpus):
+        for j, v in enumerate(vals):
+            cases.append(Case("c%dv%d" % (i, j), "t%d" % i, t, v))
     for i, t in enumerate(types):
+        if i < len(corpus):
+            continue
         vals, vseen = [], set()
         for _ in range(nvals * 3):
             v = rand_value(U, t, rng)
@@ -115,6 +123,38 @@ def make_cases(seed, tier, ndefs=None, ntypes=None, nvals=None):
         for j, v in enumerate(vals):
             cases.append(Case("c%dv%d" % (i, j), "t%d" % i, t, v))
     return U, types, cases
+
+
+def corpus_cases():
+    u8, u32, u64 = ("prim", "u8"), ("prim", "u32"), ("prim", "u64")
+    n = lambda x: ("n", x)
+    return [
+        # D1: ControlFlow tags
+        (("cf", u8, u8), [("t", 1, [n(7)]), ("t", 0, [n(7)])]),
+        (("vec", ("cf", ("string",), ("vec", u32))), [("s", [("t", 0, [("b", b"ab")]), ("t", 1, [("s", [n(1), n(2)])])])]),
+        # D2: zero-length arrays; D9: zero-sized zero-copy data
+        (("arr", 0, u32), [("s", [])]),
+        (("arr", 3, ("unit",)), [("s", [("s", []), ("s", []), ("s", [])])]),
+        # D3: sequences of zero-sized types
+        (("vec", ("unit",)), [("s", [("s", [])] * 3), ("s", [])]),
+        (("tup", 1, ("unit",)), [("s", [("s", [])])]),
+        (("vec", ("ph", u8)), [("s", [("s", [])] * 2)]),
+        (("vec", ("rfull",)), [("s", [("s", [])] * 2)]),
+        (("vec", ("range", "to", ("unit",))), [("s", [("s", [("s", [])])] * 2)]),
+        (("bslice", ("arr", 0, u64)), [("s", [("s", [])] * 4)]),
+        # D4: Option
+        (("opt", u8), [("t", 1, [n(9)]), ("t", 0, [])]),
+        # D10 (known finding): a unit that is not a power of two
+        (("vec", ("range", "to", ("arr", 3, u32))), [("s", [("s", [("s", [n(1), n(2), n(3)])])] * 2), ("s", [])]),
+        (("opt", ("vec", ("range", "toincl", ("arr", 5, ("prim", "i16"))))), [("t", 1, [("s", [("s", [("s", [n(1), n(2), n(3), n(4), n(5)])])])])]),
+        # exhausted inclusive ranges (refused by the documented assertion)
+        (("range", "incl", u32), [("s", [n(5), n(5), n(1)]), ("s", [n(1), n(9), n(0)])]),
+        (("opt", ("range", "incl", u8)), [("t", 1, [("s", [n(3), n(3), n(1)])]), ("t", 1, [("s", [n(1), n(2), n(0)])])]),
+        # slices and iterators (honest and lying)
+        (("sref", u64), [("s", [n(i) for i in range(20)])]),
+        (("siter", u32), [("t", 3, [n(1), n(2), n(3)]), ("t", 5, [n(1), n(2)]), ("t", 0, [n(1)])]),
+        (("sref", ("string",)), [("s", [("b", b"x"), ("b", b"")])]),
+    ]
 
 
 def write_gen_workspace(U, cases, gdir, shards=GEN_SHARDS):
@@ -138,7 +178,7 @@ def write_gen_workspace(U, cases, gdir, shards=GEN_SHARDS):
             expr = rust_val(U, c.t, c.v, cx)
             st = rust_ty(U, c.t, "'_")
             dt = rust_ty(U, sertype(U, c.t), "'static")
-            body.append("fn case_%s(ops: &[String], arena: &mut Arena, out: &mut String) {\n    %s\n    let v: %s = %s;\n    run_case::<%s, %s>(\"%s\", &v, ops, arena, out);\n}" % (
+            body.append("fn case_%s(ops: &[String], arena: &mut Arena, out: &mut String) {\n    %s\n    let mk = || -> %s { %s };\n    run_case::<%s, %s>(\"%s\", &mk, ops, arena, out);\n}" % (
                 c.cid, "\n    ".join(cx.lets), st, expr, st, dt, c.cid))
             arms.append('        "%s" => case_%s(ops, arena, out),' % (c.cid, c.cid))
         body.append("fn dispatch(cid: &str, ops: &[String], arena: &mut Arena, out: &mut String) {\n    match cid {\n%s\n        _ => {}\n    }\n}" % "\n".join(arms))
@@ -287,3 +327,203 @@ def norm_chunks(s):
         else:
             out.append(x)
     return out
+
+
+# ------------------------------------------------------------------ the shared campaign
+
+def tag_counts(U, t, v):
+    """number of valid tags of every tag written for (t, v), in stream order"""
+    k = t[0]
+    out = []
+    if k in ("vec", "bslice", "sref"):
+        if not is_zc(U, t[1]):
+            for x in v[1]:
+                out += tag_counts(U, t[1], x)
+    elif k == "arr":
+        if not is_zc(U, t[2]):
+            for x in v[1]:
+                out += tag_counts(U, t[2], x)
+    elif k == "opt":
+        out.append(2)
+        for x in v[2]:
+            out += tag_counts(U, t[1], x)
+    elif k == "bound":
+        out.append(3)
+        for x in v[2]:
+            out += tag_counts(U, t[1], x)
+    elif k == "cf":
+        out.append(2)
+        out += tag_counts(U, t[1 + v[1]], v[2][0])
+    elif k == "adt":
+        d = U.defs[t[1]]
+        if d.copy != "zero":
+            b = inst_fields(U, t)
+            if d.kind == "struct":
+                for (_, _, ft), x in zip(b, v[1]):
+                    out += tag_counts(U, ft, x)
+            else:
+                out.append(len(b))
+                for (_, _, ft), x in zip(b[v[1]][2], v[2]):
+                    out += tag_counts(U, ft, x)
+    return out
+
+
+def repo_fingerprint():
+    """hash of every source file cargo reads under /repo (tracked or not)"""
+    h = hashlib.sha256()
+    for root, dirs, files in os.walk(REPO):
+        dirs[:] = sorted(d for d in dirs if d not in ("target", ".git"))
+        for f in sorted(files):
+            if f.endswith((".rs", ".toml", ".lock", ".md")):
+                p = os.path.join(root, f)
+                h.update(p.encode())
+                try:
+                    h.update(open(p, "rb").read())
+                except OSError:
+                    pass
+    return h.hexdigest()
+
+
+def verif_fingerprint():
+    h = hashlib.sha256()
+    for sub in ("vlib", "driver", "harness/src", "coq/Model", "coq/Extract"):
+        for root, dirs, files in os.walk(os.path.join(VERIF, sub)):
+            dirs[:] = sorted(d for d in dirs if d not in ("_build", "__pycache__"))
+            for f in sorted(files):
+                if f.endswith((".py", ".ml", ".rs", ".v", ".toml", ".sh")):
+                    p = os.path.join(root, f)
+                    h.update(p.encode())
+                    h.update(open(p, "rb").read())
+    return h.hexdigest()
+
+
+class Campaign:
+    pass
+
+
+_campaigns = {}
+
+
+def campaign(tier):
+    """Run (or load from the cache keyed by the /repo and /verif contents) the codec campaign."""
+    key = sha("%s|%s|%s|%d" % (repo_fingerprint(), verif_fingerprint(), tier, seed()))
+    if key in _campaigns:
+        return _campaigns[key]
+    cdir = os.path.join(CACHE, "campaign")
+    os.makedirs(cdir, exist_ok=True)
+    cpath = os.path.join(cdir, "codec_%s.pkl" % key[:24])
+    if os.path.exists(cpath):
+        try:
+            with open(cpath, "rb") as f:
+                c = pickle.load(f)
+            _campaigns[key] = c
+            return c
+        except Exception:
+            pass
+    c = run_campaign(tier)
+    c.key = key
+    if not c.errors:
+        # keep a few recent campaign files only
+        old = sorted((os.path.getmtime(os.path.join(cdir, f)), f) for f in os.listdir(cdir))
+        for _, f in old[:-6]:
+            try:
+                os.remove(os.path.join(cdir, f))
+            except OSError:
+                pass
+        with open(cpath, "wb") as f:
+            pickle.dump(c, f)
+    _campaigns[key] = c
+    return c
+
+
+def run_campaign(tier):
+    from .coqstage import build as coq_build
+    t0 = time.time()
+    c = Campaign()
+    c.tier, c.errors = tier, []
+    c.U, c.types, c.cases = make_cases(seed(), tier)
+    gdir = os.path.join(CACHE, "gen", "codec_%s" % tier)
+    tdir = os.path.join(CACHE, "gen-target")
+    parts = write_gen_workspace(c.U, c.cases, gdir)
+    okc, logc = coq_build()
+    if not okc:
+        c.errors.append("coq/driver build failed: " + logc[-1500:])
+    ok, log = build_gen(gdir, tdir)
+    c.build_log = log[-4000:]
+    if not ok:
+        c.errors.append("generated harness does not compile:\n" + log[-3000:])
+        c.iobs, c.mobs, c.bases, c.hdrs = {}, {}, {}, {}
+        c.wall = time.time() - t0
+        return c
+    c.tagc = {x.cid: tag_counts(c.U, x.t, x.v) for x in c.cases}
+    heavy_limit = 700 if tier == "quick" else 4000
+
+    def iops(x):
+        ops = ["hdr", "ser", "full", "eps:0", "schema", "flips", "place", "cuts"]
+        ops.append("tags:" + ",".join(str(n) for n in c.tagc[x.cid]))
+        return ops
+
+    c.iobs, c.bases, errs = run_impl(parts, iops, gdir, tdir, "run")
+    c.errors += errs
+    c.hdrs = {}
+    for x in c.cases:
+        # header inputs (hash words, type-name string) are read from the bytes the implementation wrote
+        b = bytes.fromhex(split_ser(c.iobs.get((x.cid, "ser"), "")).get("bytes", ""))
+        if len(b) >= 37:
+            nl = int.from_bytes(b[29:37], "little")
+            if len(b) >= 37 + nl:
+                c.hdrs[x.cid] = ("%x" % int.from_bytes(b[13:21], "little"), "%x" % int.from_bytes(b[21:29], "little"), b[37:37 + nl].hex())
+
+    def mops(x):
+        b = "%x" % c.bases.get(x.cid, 0)
+        return ["tinfo", "ser", "full", "eps:" + b, "schema", "flips:" + b, "place:" + b, "cuts:" + b,
+                "tags:%s:%s" % (b, ",".join(str(n) for n in c.tagc[x.cid]))]
+
+    if okc:
+        c.mobs, merrs = run_model(c.U, c.cases, c.hdrs, mops, gdir, "run")
+        c.errors += merrs
+    else:
+        c.mobs = {}
+    c.wall = time.time() - t0
+    return c
+
+
+def mkey(c, x, op):
+    """key of the model observation corresponding to the implementation observation [op]"""
+    b = "%x" % c.bases.get(x.cid, 0)
+    if op == "eps:0":
+        return "eps:" + b
+    if op in ("flips", "place", "cuts", "tags"):
+        return op + ":" + b
+    return op
+
+
+def agree(c, x, op):
+    """does the model agree with the implementation on observation [op] of case [x]?"""
+    i = c.iobs.get((x.cid, op))
+    m = c.mobs.get((x.cid, mkey(c, x, op)))
+    if op == "ser":
+        return ser_agree(m, i)
+    if i is None and m is None:
+        return True
+    if i is None or m is None:
+        return False
+    if op == "schema":
+        # the implementation adds same=..; compare rows and render outcomes
+        return m == re.sub(r" same=[yn]$", "", i)
+    if op == "place":
+        return m.strip() == re.sub(r" misaligned=\d+$", "", i).strip()
+    return m.strip() == i.strip()
+
+
+def type_histogram(c):
+    h = {}
+    for t in c.types:
+        for k in constructors(c.U, t):
+            h[k] = h.get(k, 0) + 1
+    return h
+
+
+def nontrivial(c, x):
+    """a case is non-trivial when its type has a composite constructor or its value a non-default scalar"""
+    return type_size(x.t) > 1 or (x.v[0] == "n" and x.v[1] not in (0,))
